@@ -678,6 +678,17 @@ class C04World:
         applier = OPS[op][2]
         key = {"op": op, "pre": pre}
         parties = [("subject", S), ("twin", it.twin)] + [(f"variant {v[0]}", v[1]) for v in it.variants]
+        if OPS[op][0] == DIRECT or (op == "add_relative_message" and args.get("index") is not None):
+            # these address a message by its position in a view: the same value may be stored as [wait 3, wait 189] in the
+            # twin made when the iterator was opened and as [wait 192] in the subject whose view was dropped and regenerated
+            # since - then "message number k" is a different message and the comparison would be the harness's mistake
+            try:
+                shapes = {_structure(q) for _, q in parties}
+            except Exception:
+                shapes = {0, 1}
+            if len(shapes) != 1:
+                self.stats["skip/position_addressed_op_on_differently_stored_parties"] += 1
+                return "skip:stored-form-differs"
         outs = [(name, ) + _call(applier, q, args) for name, q in parties]
         excs = [o for o in outs if o[2] is not None]
         if excs:
@@ -708,6 +719,12 @@ class C04World:
                 if v is not None:
                     return v
         return None
+
+
+def _structure(q):
+    """Ordered content of both views as the accessors would hand them out (computed on a clone)."""
+    c = clone_seq(q)
+    return (repr(observe.raw_snapshot(c.abs._messages)), repr(observe.raw_snapshot(c.rel._messages)))
 
 
 def _clean_args(args):
